@@ -122,6 +122,7 @@ def make(shape, tagged=False):
         names = _named(o)
         if names:
           fdl.add_tag(o, names[0], N.TagA if i % 2 else N.TagB)
+          fdl.add_tag(o, names[-1], N.TagC)
   return objs[-1]
 
 
@@ -345,6 +346,8 @@ def edit_ops(cfg):
     ops.append((f'b{bi}.swap-callable', lambda c, g=get: _do(
         g(c), lambda n: fdl.update_callable(
             n, N.node_b if n.__fn_or_cls__ is N.node else N.node))))
+    ops.append((f'b{bi}.retarget-to-narrower-callable', lambda c, g=get: _do(
+        g(c), _retarget)))
     ops.append((f'b{bi}.add-tag', lambda c, g=get: _do(
         g(c), lambda n: fdl.add_tag(n, _named(n)[0], N.TagC))))
     ops.append((f'b{bi}.clear-tags', lambda c, g=get: _do(
@@ -382,6 +385,15 @@ def _shared_chain(n, order):
   names = _named(n)
   setattr(n, names[0], list(chain) + [chain[-1]])
   setattr(n, names[1], {'again': list(chain)})
+
+
+def _retarget(n):
+  """Switches to a callable that lacks the last parameter; its value and tags
+  go away with it."""
+  if n.__fn_or_cls__ not in (N.node, N.node_b):
+    raise LookupError('not applicable')
+  fdl.clear_tags(n, 'y')
+  fdl.update_callable(n, N.only_x, drop_invalid_args=True)
 
 
 def _new_shared(n):
